@@ -82,7 +82,7 @@ impl StatusList2021 {
   /// Returns the status of the `index`-th entry, if it exists.
   pub fn get(&self, index: usize) -> Result<bool, StatusListError> {
     (index < self.len())
-      .then_some(self.get_unchecked(index))
+      .then(|| self.get_unchecked(index))
       .ok_or(StatusListError::IndexOutOfBounds)
   }
 
